@@ -95,7 +95,7 @@ var b, a, c, d, r, D, FX, RS, DL, CMP, S;
                               T(function () { return d.getUint8(0); }) + ' ' + T(function () { return d.getUint8(DL()); }));
   };
   RS = function (n) { return (b instanceof AB) ? b.resize(n) : b.grow(n); };
-  var EFF = { D: function () { detach(b); }, Z: function () { RS(0); }, S: function () { RS(4); }, G: function () { RS(16); }, N: function () {} };
+  var EFF = { D: function () { detach(b); }, Z: function () { RS(0); }, S: function () { RS(4); }, G: function () { RS(16); }, P: function () { RS(5); }, Q: function () { RS(13); }, N: function () {} };
   FX = function (e, ret) { return { valueOf: function () { try { EFF[e](); } catch (x) {} return ret; } }; };
   // total descending comparator (NaN last, +0/-0 equal) with an optional side effect on its first call
   CMP = function (mode, e) {
@@ -637,6 +637,9 @@ def ta_alphabet(spec, name):
     if mx is not None:
         for n in (0, 4, 8, 12, 16):
             t_("resize", N(n))
+        # byte lengths that leave a partial trailing element for every element size > 1
+        q("resize", N(5))
+        q("resize", N(13))
         f("resize", N(17))
         f("resize", N(-1))
     else:
@@ -721,6 +724,22 @@ def ta_alphabet(spec, name):
     f("copyWithin", N(1), N(0), fx("D", N(16)))
     f("copyWithin", N(0), N(1), fx("Z", N(16)))
     f("copyWithin", N(1), fx("G", N(0)))
+    if mx is not None and not shared:
+        # the buffer shrinks, in the middle of the call, to a byte length that is not a multiple of the element size
+        q("copyWithin", N(0), N(1), fx("P", N(16)))
+        q("copyWithin", N(1), N(0), fx("P", N(16)))
+        q("copyWithin", N(0), fx("P", N(1)))
+        f("copyWithin", N(0), N(1), fx("Q", N(16)))
+        f("copyWithin", N(2), N(0), fx("Q", N(3)))
+        q("slice", N(0), fx("P", N(16)))
+        f("slice", fx("Q", N(1)))
+        q("fill", V1, N(0), fx("P", N(16)))
+        f("fill", V2, fx("Q", N(0)))
+        q("subarray", N(0), fx("P", N(16)))
+        f("set_ta", "c", fx("P", N(0)))
+        f("with", fx("P", N(0)), V1)
+        f("includes", ("EL",), fx("P", N(0)))
+        q("put", ("L1",), fx("P", V2))
     q("slice", N(0), N(1))
     k("slice", N(1))
     q("slice", N(-1))
